@@ -124,15 +124,37 @@ class Engine(object):
         self.out.violate(kind, **kw)
 
     def global_vector(self):
-        import bempp_cl.api
-
-        return env.read_params(bempp_cl.api.GLOBAL_PARAMETERS)
+        """The values the clients have put into GLOBAL_PARAMETERS so far (what they are entitled to expect)."""
+        return dict(self.expected_global)
 
     def resolved_vector(self, params_index):
-        """Values of the parameter object an operation resolves to, read now."""
+        """Values of the parameter object an operation resolves to: what its owner assigned to it."""
         if params_index is None:
             return self.global_vector()
-        return env.read_params(self.params[params_index % len(self.params)]["obj"])
+        return dict(self.params[params_index % len(self.params)]["vector"])
+
+    def check_parameter_objects(self, where):
+        """Parameter objects only change when a client assigns to them: the global object must hold exactly
+        the values set through set_global, an explicit object exactly the values it was created with."""
+        import bempp_cl.api
+
+        if self.param_alias_reported:
+            return
+        actual = env.read_params(bempp_cl.api.GLOBAL_PARAMETERS)
+        if actual != self.expected_global:
+            diff = {k: [self.expected_global[k], actual[k]] for k in actual if actual[k] != self.expected_global[k]}
+            self.param_alias_reported = True
+            self.violate("parameter_object_changed_without_assignment", which="GLOBAL_PARAMETERS", where=where,
+                         expected_vs_actual=diff, flags={"assembler": None, "family": "parameters"})
+            return
+        for k, p in enumerate(self.params):
+            actual = env.read_params(p["obj"])
+            if actual != p["vector"]:
+                diff = {f: [p["vector"][f], actual[f]] for f in actual if actual[f] != p["vector"][f]}
+                self.param_alias_reported = True
+                self.violate("parameter_object_changed_without_assignment", which="explicit parameter object %d" % k,
+                             where=where, expected_vs_actual=diff, flags={"assembler": None, "family": "parameters"})
+                return
 
     # ------------------------------------------------------------------ model side
     def _fresh_spaces(self, space_recs):
@@ -311,7 +333,10 @@ class Engine(object):
 
         case = self.case
         out = self.out
-        env.write_params(bempp_cl.api.GLOBAL_PARAMETERS, case.get("initial_globals", env.DEFAULT_VECTOR))
+        self.expected_global = dict(env.DEFAULT_VECTOR)
+        self.expected_global.update(case.get("initial_globals", {}))
+        self.param_alias_reported = False
+        env.write_params(bempp_cl.api.GLOBAL_PARAMETERS, self.expected_global)
         peer = case.get("peer", {})
         exafmm.CONTROL.permute_seed = peer.get("permute")
         exafmm.CONTROL.chunk = peer.get("chunk", 256)
@@ -322,8 +347,11 @@ class Engine(object):
             self.raw.append(raw)
             self.grids.append(grids.to_grid(raw))
         for vec in case.get("params_pool", []):
-            self.params.append({"obj": env.new_params(vec), "vector": dict(vec)})
+            full = dict(env.DEFAULT_VECTOR)
+            full.update(vec)
+            self.params.append({"obj": env.new_params(full), "vector": full})
         self.step = -1
+        self.check_parameter_objects("after creating the explicit parameter objects")
         for i, op in enumerate(case["ops"]):
             self.step = i
             out.steps += 1
@@ -332,6 +360,7 @@ class Engine(object):
                 handler(op)
             except Exception as e:  # noqa: BLE001  (harness bug, not a property violation)
                 raise RuntimeError("history engine failed at step %d (%s): %r\n%s" % (i, op.get("t"), e, traceback.format_exc()))
+            self.check_parameter_objects("after step %d (%s)" % (i, op.get("t")))
             out.state_keys.append(self.abstract_state())
         self.step = len(case["ops"])
         self.final_checks()
@@ -353,6 +382,7 @@ class Engine(object):
 
         before = self.global_vector().get(op["field"])
         env.write_params(bempp_cl.api.GLOBAL_PARAMETERS, {op["field"]: op["value"]})
+        self.expected_global[op["field"]] = op["value"]
         self.event("set_global", op["field"], op["value"])
         if before != op["value"]:
             self.out.fault("F1_parameter_mutation")
@@ -404,7 +434,7 @@ class Engine(object):
         self.ops.append(rec)
         self.event("create_op", ops.op_label(op["spec"]), assembler, op.get("precision"), pidx is not None)
         if pidx is not None:
-            pv = env.read_params(pobj)
+            pv = self.resolved_vector(pidx)
             gv = self.global_vector()
             if any(pv[k] != gv[k] for k in ("quadrature.regular", "quadrature.singular")):
                 self.out.probe("explicit_params_differ_from_global")
